@@ -1,5 +1,6 @@
 import ZoektModel.Basic.Proto
 import ZoektModel.C11.Spec
+import ZoektModel.C11.Dist
 namespace ZoektModel.C11
 open ZoektModel ZoektModel.Proto
 
@@ -44,6 +45,12 @@ def model (inp : String) : Option String :=
     let d ← hexToBytes? h
     let ls ← natList? ls
     pure (render showNatList (pIterRun d ls))
+  | ["dist", h1, h2, d, ls] => do
+    let b1 ← hexToBytes? h1
+    let b2 ← hexToBytes? h2
+    let d ← d.toNat?
+    let ls ← natList? ls
+    pure (render showNatList (distRun b1 b2 d ls))
   | ["rd", h, off, sz] => do
     let off ← off.toNat?
     let sz ← sz.toNat?
